@@ -244,6 +244,15 @@ def run(tier, seed):
         n = 6000
     chk.machine_family("repository-prolog-files", repo_file_scenarios(), features=features, opts_list=DEC)
     chk.machine_family("scale", gen.scale_scenarios(), features=features, max_steps=6000)
+    SG = gen.scale_groups()
+    BIG = {"budget_extra": 20000000}
+    chk.machine_family("scale-arity-zeroargs-chains", SG["arity"] + SG["zero"] + SG["chain"] + SG["calln"], BIG, features=features, max_steps=30000)
+    # the same programs with once-only variables written `_` and the named ones spelled like names a compiler
+    # generates for its own purposes
+    NAMES = [{"mode": "names:_G%d"}, {"mode": "names:_x%d"}, {"mode": "names:X%d"}, {"mode": "names:_%d"}, {"mode": "names:__%d_"}]
+    an = [gen.anonymise(gen.random_scenario(rnd, {"ops", "rich"}, nclauses=3, depth=rnd.choice([1, 2])), rnd) for _ in range(250 if tier == "quick" else 3000)]
+    chk.machine_family("anonymous-and-generated-looking-names", an + [gen.anonymise(f4_fresh(), rnd), gen.anonymise(corpus(), rnd)],
+                       features=features, opts_list=NAMES)
     chk.machine_family("F5-multiclause-heads", f5_multiclause(rnd, 400 if tier == "quick" else 6000), features=features)
     frag = {"ops", "rich"}
     scns = [gen.random_scenario(rnd, frag, nclauses=3, depth=rnd.choice([1, 2, 3])) for _ in range(n)]
